@@ -3,6 +3,11 @@ use crate::player::{HostCfg, Op, Player, Rec};
 use crate::storyinfo::StoryInfo;
 use std::rc::Rc;
 
+thread_local! {
+    /// the choice path currently being played (read by crash handlers)
+    pub static CURRENT_PATH: std::cell::RefCell<Vec<usize>> = const { std::cell::RefCell::new(Vec::new()) };
+}
+
 #[derive(Clone, Debug)]
 pub struct PathRun {
     pub choices: Vec<usize>,
@@ -28,6 +33,7 @@ pub fn play_path(
     choices: &[usize],
     max_lines: usize,
 ) -> Result<PathRun, String> {
+    CURRENT_PATH.with(|c| *c.borrow_mut() = choices.to_vec());
     let mut p = Player::new(json.clone(), info.clone(), host.clone())?;
     let mut recs = Vec::new();
     let mut idx = 0;
